@@ -68,7 +68,9 @@ func main() {
 	}
 	variants := []variant{{"amd64", "", false}}
 	if *tier == "thorough" {
-		variants = append(variants, variant{"arm64", "arm64", false}, variant{"amd64+tests", "", true})
+		// the release targets (Makefile: x86_64, arm64) plus a 32-bit build, which re-evaluates every
+		// constant and conversion under a different word size and would expose any build-constrained file
+		variants = append(variants, variant{"arm64", "arm64", false}, variant{"386", "386", false})
 	}
 	var results []*report.Result
 	extra := map[string]any{}
